@@ -258,8 +258,13 @@ def gen(rng, idx, tier):
     if rng.random() < 0.12:
         stratum = rng.choice(["interpolatable", "variable"])
         delivery = "dslib"
+    if fmt == "ttf" and rng.random() < 0.12:
+        # a plain list of (in-memory) master UFOs: the list is the union of the masters'
+        # lib keys, here split so that some names are listed by the second master only
+        stratum = "interpolatable"
+        delivery = "ufolibs"
     return {"stratum": stratum, "fmt": fmt, "lib": rng.choice(["defcon", "ufoLib2"]),
-            "skip": skip, "delivery": delivery,
+            "skip": skip, "delivery": delivery, "ufolibs_cut": rng.randint(0, max(0, len(skip) - 1)),
             "decoy": rng.sample(names, min(len(names) - 1, 1)) if delivery == "both" else [],
             "ufo": {"glyphs": glyphs, "kerning": kerning, "groups": groups, "lib": lib,
                     "features": "languagesystem DFLT dflt;\nlanguagesystem latn dflt;\n",
@@ -319,8 +324,17 @@ def compile_pair(case, with_skip):
               "sources": [{"ufo": 0, "location": {"Weight": 400}, "name": "m0"},
                           {"ufo": 1, "location": {"Weight": 700}, "name": "m1"}],
               "lib": {"public.skipExportGlyphs": list(skip)} if with_skip else {}}
-        doc, _ = build_designspace(ds, case["lib"])
-        if case["stratum"] == "interpolatable":
+        if case["delivery"] == "ufolibs":
+            ds["lib"] = {}
+            if with_skip:
+                cut = case.get("ufolibs_cut", 0)
+                for u, part in zip(ds["ufos"], (skip[:cut], skip[cut:])):
+                    if part:
+                        u["lib"]["public.skipExportGlyphs"] = list(part)
+        doc, ufos = build_designspace(ds, case["lib"])
+        if case["delivery"] == "ufolibs":
+            fonts = list(ufo2ft.compileInterpolatableTTFs(ufos, **kw))
+        elif case["stratum"] == "interpolatable":
             if case["fmt"] == "otf":
                 out = ufo2ft.compileInterpolatableOTFsFromDS(doc, **kw)
             else:
@@ -640,6 +654,10 @@ def run(case):
     bump("ttf_cases" if case["fmt"] == "ttf" else "otf_cases")
     if case["delivery"] == "both":
         bump("arg_overrides_lib")
+    if case["delivery"] == "ufolibs":
+        bump("master_list_lib_union_cases")
+        if case.get("ufolibs_cut", 0) < len(case["skip"]):
+            bump("master_list_names_listed_by_second_master_only")
     violations = []
     refs = {n: closure_refs(glyphs, n) for n in glyphs}
     nontrivial = False
